@@ -181,6 +181,15 @@ class CallMixin:
                 self.store(target.elts[0], T.scalar(v.ty.a, v.ty.fst(v.t)), p)
                 self.store(target.elts[1], T.scalar(v.ty.b, v.ty.snd(v.t)), p)
                 return
+            if v.ty == T.TUP and all(isinstance(t, ast.Name) for t in target.elts):
+                # a, b = <node tuple>: ValueError unless it has exactly as many elements; the names get the elements by position
+                self._raise_if(p, TH.tlen(v.t) != len(target.elts), "ValueError", f"line {getattr(target, 'lineno', '?')}")
+                m = fresh("m", T.I)       # a tuple of that length has exactly these members (tat_mem / pmem_* unrolled for the literal length)
+                self._assume(p, z3.ForAll([m], TH.tmem(v.t, m) == z3.Or([m == TH.tat(v.t, z3.IntVal(i)) for i in range(len(target.elts))]),
+                                          patterns=[TH.tmem(v.t, m)]))
+                for i, t in enumerate(target.elts):
+                    self.store(t, T.sv_int(TH.tat(v.t, z3.IntVal(i))), p)
+                return
             raise Unsupported("tuple unpacking of this shape")
         raise Unsupported(f"store target {type(target).__name__}")
 
@@ -469,6 +478,15 @@ class CallMixin:
             # an encoder that has not been fitted: no label known
             return T.sv_obj("LabelEnc", {"_enc": T.sv_map(T.INT, T.INT, z3.K(T.I, z3.BoolVal(False)), z3.K(T.I, z3.IntVal(0))),
                                          "_inv": T.sv_map(T.INT, T.INT, z3.K(T.I, z3.BoolVal(False)), z3.K(T.I, z3.IntVal(0)))})
+        if name in ("np.linspace", "numpy.linspace") and len(e.args) == 3 and not e.keywords and all(isinstance(a, ast.Constant) for a in e.args[:2]) \
+                and e.args[0].value == e.args[1].value and type(e.args[0].value) in (int, float):
+            # np.linspace(c, c, n): n copies of the float c (ValueError for a negative n); assumed library contract
+            n = self.coerce(self.ev(e.args[2], p), T.INT).t
+            self._raise_if(p, n < 0, "ValueError", f"line {e.lineno}")
+            at = fresh("linspace", z3.ArraySort(T.I, T.R))
+            k = fresh("k", T.I)
+            self._assume(p, z3.ForAll([k], at[k] == z3.RealVal(e.args[0].value), patterns=[at[k]]))
+            return T.sv_seq(T.REAL, n, at)
         if name in ("np.ones_like", "numpy.ones_like") and len(e.args) == 1 and not e.keywords:
             v = self.ev(e.args[0], p)
             if v.ty == T.EMPTYLIST:
@@ -692,6 +710,18 @@ class CallMixin:
         if v.ty in (T.INT, T.BOOL):
             return T.scalar(T.STRINT, self.coerce(v, T.INT).t)
         raise Unsupported(f"str() of {v.ty}")
+
+    def bi_sum(self, e, p):
+        """sum(d.values()) for a dict of ints: the specification function vsum of the table (theory: vsum_* laws of a finite sum)"""
+        if len(e.args) == 1 and not e.keywords:
+            a = e.args[0]
+            if isinstance(a, ast.Call) and isinstance(a.func, ast.Attribute) and a.func.attr == "values" and not a.args and not a.keywords:
+                m = self.ev(a.func.value, p)
+                if isinstance(m.ty, T.Map) and m.ty.k == T.INT and m.ty.v == T.INT:
+                    return T.sv_int(TH.VSUM(m.dom, m.val))
+                if m.ty == T.EMPTYDICT:
+                    return T.sv_int(z3.IntVal(0))
+        raise Unsupported("sum() in this form")
 
     def bi_len(self, e, p):
         if len(e.args) == 1 and not e.keywords and isinstance(e.args[0], ast.Name) and isinstance(p.env.get(e.args[0].id, SV(T.NONE)).ty, T.Obj) \
@@ -984,6 +1014,16 @@ class CallMixin:
             args = [self.ev(a, p) for a in e.args]
         note = f"line {e.lineno}"
         rt = recv.ty
+        if rt == T.TUP and name == "remove" and len(args) == 1 and isinstance(f.value, ast.Name):
+            # list(k).remove(x) on a list of node labels: ValueError when x is absent; for a duplicate-free list what is left is the list without x
+            # (for a list with repeated labels only the length is stated)
+            x = self.coerce(args[0], T.INT)
+            self._raise_if(p, z3.Not(TH.tmem(recv.t, x.t)), "ValueError", note)
+            r = fresh("removed", T.TupS)
+            self._assume(p, z3.Implies(TH.distinct_t(recv.t), r == TH.tfilter_ne(recv.t, x.t)))
+            self._assume(p, TH.tlen(r) == TH.tlen(recv.t) - 1)
+            self.store(f.value, T.scalar(T.TUP, r), p)
+            return T.sv_none()
         if isinstance(rt, T.Bag) and name == "extend":
             o = args[0]
             if o.ty == T.EMPTYLIST:
